@@ -18,10 +18,10 @@ BUDGET = {
 }
 REQUIRED_PROBES = {"quick": ("s1f3", "s1f11", "s2f13", "s2f29", "s2f15_ok", "s2f15_refused", "s2f15_boundary", "s5f3",
                              "s5f5", "s5f7", "alarm_set_enabled", "alarm_set_disabled", "unknown_id",
-                             "multi_item_refused_after_valid"),
+                             "multi_item_refused_after_valid", "transport_secsi"),
                    "thorough": ("s1f3", "s1f11", "s2f13", "s2f29", "s2f15_ok", "s2f15_refused", "s2f15_boundary", "s5f3",
                                 "s5f5", "s5f7", "alarm_set_enabled", "alarm_set_disabled", "unknown_id",
-                                "multi_item_refused_after_valid", "s5f2_unanswered")}
+                                "multi_item_refused_after_valid", "s5f2_unanswered", "transport_secsi")}
 EVIDENCE = {
     "level": "exploration",
     "rule": ("seeded sequences of S1F3, S1F11, S2F13, S2F15, S2F29, S5F3, S5F5, S5F7 with id lists (empty = all, "
@@ -31,8 +31,8 @@ EVIDENCE = {
              "= history has an S2F15 and an alarm change; distinct = distinct op-kind sequences"),
     "real": ["secsgem.gem.StatusDataCollectionCapability", "secsgem.gem.EquipmentConstantsCapability",
              "secsgem.gem.AlarmCapability", "secsgem.gem.ClockCapability", "secsgem.gem.GemEquipmentHandler",
-             "secsgem.hsms.HsmsProtocol"],
-    "stub": ["socket/select (SimSocket)", "scripted host (reference codecs)"],
+             "secsgem.hsms.HsmsProtocol", "secsgem.secsi.SecsIProtocol + SerialConnection (a fifth of the runs)"],
+    "stub": ["socket/select (SimSocket)", "serial.Serial (SimLine) with the reference E4 peer", "scripted host (reference codecs)"],
     "assumptions": ["an unknown ALID in S5F5 may be answered with an S5F0 abort or a zero-length entry (not prescribed)",
                     "while set_alarm/clear_alarm is blocked on an unanswered S5F1 the alarm's set state is accepted "
                     "either way", "values of the wrong type are outside the quantifier and are not sent"],
@@ -94,6 +94,7 @@ def gen_plan(rng, tier, index):
         else:
             ops.append([op, rng.choice([10, "svt"]), rng.randrange(1000)])
     plan = {"ops": ops, "active": rng.random() < 0.3, "latency": rng.choice([0.0, 0.0005, 0.01])}
+    plan["transport"] = rng.choice(["hsms", "hsms", "hsms", "hsms", "secsi"])
     sched = dict(rng.choice(SCHEDS))
     sched["seed"] = rng.getrandbits(48)
     plan["sched"] = sched
@@ -169,7 +170,12 @@ def run(sim, plan):
 
     k = sim.k
     sim.make_net(latency=plan["latency"])
-    env = gemenv.GemEnv(sim, role="equipment", active=plan["active"], t3=T3, delay=10,
+    transport = plan.get("transport", "hsms")
+    secsi = transport == "secsi"
+    line = sim.make_line(a="SIMA", b="SIMB") if secsi else None
+    if secsi:
+        sim.probe("transport_secsi")
+    env = gemenv.GemEnv(sim, role="equipment", active=plan["active"], t3=T3, delay=10, transport=transport, line=line,
                         initial_control_state="ONLINE", initial_online_control_state="REMOTE")
     eq = env.handler
     eq.status_variables[10] = secsgem.gem.StatusVariable(10, "sv10", "mm", var.U4, False)
